@@ -18,38 +18,45 @@ TOKENS = {"Add", "Sub", "Mult", "Div", "Mod", "Eq", "NotEq", "Lt", "LtE", "Gt", 
           "USub", "Any", "All"}
 
 
+_SHARED = {}
+
+
+def _shared_class(base_name):
+    """ONE recorder class per base for the whole run: handlers are attached to the visitor OBJECT (as the library's own
+    tests do with mocks), after other objects of the same class have already walked trees without them - a dispatch
+    decision remembered per class would show."""
+    if base_name not in _SHARED:
+        from odata_query import visitor
+        base = getattr(visitor, base_name)
+
+        class Shared(base):
+            def generic_visit(self, node):
+                self.log.append([type(node).__name__, "generic_visit"])
+                return super().generic_visit(node)
+        _SHARED[base_name] = Shared
+    return _SHARED[base_name]
+
+
 def make_recorder(over):
-    from odata_query.visitor import NodeVisitor
-    log = []
-
-    class Rec(NodeVisitor):
-        def generic_visit(self, node):
-            log.append([type(node).__name__, "generic_visit"])
-            return super().generic_visit(node)
-
+    rec = _shared_class("NodeVisitor")()
+    rec.log = log = []
     for k in over:
-        def h(self, node, k=k):
+        def h(node, k=k):
             log.append([type(node).__name__, "visit_" + k])
-        setattr(Rec, "visit_" + k, h)
-    return Rec(), log
+        setattr(rec, "visit_" + k, h)
+    return rec, log
 
 
 def make_rec_transformer(over):
     """a NodeTransformer whose handlers only record that they were called (and change nothing)"""
-    from odata_query.visitor import NodeTransformer
-    log = []
-
-    class RecT(NodeTransformer):
-        def generic_visit(self, node):
-            log.append([type(node).__name__, "generic_visit"])
-            return super().generic_visit(node)
-
+    rec = _shared_class("NodeTransformer")()
+    rec.log = log = []
     for k in over:
-        def h(self, node, k=k):
+        def h(node, k=k):
             log.append([type(node).__name__, "visit_" + k])
             return node
-        setattr(RecT, "visit_" + k, h)
-    return RecT(), log
+        setattr(rec, "visit_" + k, h)
+    return rec, log
 
 
 def make_transformer(over, swap):
